@@ -108,3 +108,12 @@ pub mod model_collections {
         fn fmt(&self, f: &mut std::fmt::Formatter<'_>) -> std::fmt::Result { f.write_str("HashSet{..}") }
     }
 }
+
+// Ghost accessors on the crate's lock wrappers (model build only).
+#[cfg(feature = "parking_lot")]
+#[allow(dead_code)]
+impl<T: ?Sized> RwLock<T> {
+    pub(crate) fn verif_readers(&self) -> usize { self.0.model_readers() }
+    pub(crate) fn verif_writer(&self) -> bool { self.0.model_writer() }
+    pub(crate) fn verif_addr(&self) -> usize { &self.0 as *const _ as *const u8 as usize }
+}
